@@ -42,7 +42,7 @@ fn gen_ccfg(r: &mut Rng, meta_mount: bool) -> CCfg {
     let entrypoint = if r.chance(1, 2) { Some(any_string(r)) } else { None };
     let command = if r.chance(2, 3) { Some((0..r.below(4)).map(|_| any_string(r)).collect()) } else { None };
     let mut env: Vec<(String, String)> = vec![];
-    for _ in 0..r.below(4) { let k = pk(r, KEYS); if !env.iter().any(|(a, _)| *a == k) { env.push((k, any_string(r))); } }
+    for _ in 0..r.below(4) { let k = pk(r, KEYS); if !env.iter().any(|(a, _)| *a == k) || r.chance(1, 4) { env.push((k, any_string(r))); } }
     let mut ports: Vec<u16> = vec![];
     for _ in 0..r.below(4) { let p = if r.chance(1, 2) { *r.pick(&[0u16, 1, 80, 8080, 12345, 65535]) } else { r.below(65536) as u16 }; if !ports.contains(&p) { ports.push(p); } }
     let n = r.below(4) as usize;
@@ -55,18 +55,32 @@ fn gen_ccfg(r: &mut Rng, meta_mount: bool) -> CCfg {
     CCfg { entrypoint, command, env, ports, mounts }
 }
 
+/// up to 3 preprocessor edits, most of them **not idempotent** (append, rename, strict remove); the strict ones are valid
+/// on the fixture as edited so far, so that a single application never panics
+fn gen_edits(r: &mut Rng, fixture: &[(String, Vec<u8>)]) -> Vec<Edit> {
+    let mut files: Vec<String> = fixture.iter().map(|(p, _)| p.clone()).collect();
+    let mut e = vec![];
+    for _ in 0..r.below(4) {
+        match r.below(6) {
+            0 => { let p = pk(r, &["new.txt", "Procfile", "sub/added", "a b", "-x"]); if !files.contains(&p) { files.push(p.clone()); } e.push(Edit::Write(p, r.pick(&[&b"edited"[..], b"", b"\xff\x00bin"]).to_vec())); }
+            1 => if !fixture.is_empty() { let p = fixture[r.below(fixture.len() as u64) as usize].0.clone(); files.retain(|f| *f != p); e.push(Edit::Delete(p)); },
+            2 | 3 => { let p = pk(r, &["Procfile", "app.txt", "log.txt", "sub/appended", "-x"]); if !files.contains(&p) { files.push(p.clone()); } e.push(Edit::Append(p, r.pick(&[&b"extra: line\n"[..], b"x", b"\n"]).to_vec())); }
+            4 => if !files.is_empty() {
+                let from = files[r.below(files.len() as u64) as usize].clone();
+                let to = pk(r, &["renamed.txt", "sub/moved", "Procfile.bak"]);
+                if from != to { files.retain(|f| *f != from && *f != to); files.push(to.clone()); e.push(Edit::Rename(from, to)); }
+            },
+            _ => if !files.is_empty() { let p = files[r.below(files.len() as u64) as usize].clone(); files.retain(|f| *f != p); e.push(Edit::Remove(p)); },
+        }
+    }
+    e
+}
+
 fn gen_bcfg(r: &mut Rng, meta_bp: bool, fixture: &[(String, Vec<u8>)]) -> BCfg {
     let builder = if r.chance(1, 2) { any_string(r) } else { s("heroku/builder:24") };
     let app = if r.chance(1, 2) { AppDir::Rel(pk(r, &["fixtures/app", "./fixtures/app", "fixtures//app/", "fixtures/../fixtures/app", "fixtures/app/."])) }
               else { AppDir::Abs(pk(r, &["/app", "/app/", "//app", "/./app"])) };
-    let pre = if r.chance(1, 2) { None } else {
-        let mut e = vec![];
-        for _ in 0..r.below(4) {
-            if r.chance(2, 3) { e.push(Edit::Write(pk(r, &["new.txt", "Procfile", "sub/added", "a b", "-x"]), r.pick(&[&b"edited"[..], b"", b"\xff\x00bin"]).to_vec())); }
-            else if !fixture.is_empty() { e.push(Edit::Delete(fixture[r.below(fixture.len() as u64) as usize].0.clone())); }
-        }
-        Some(e)
-    };
+    let pre = if r.chance(1, 2) { None } else { Some(gen_edits(r, fixture)) };
     let mut bps: Vec<String> = (0..r.below(4)).map(|_| { let mut b = any_string(r); while b.is_empty() { b = any_string(r); } b }).collect();
     if meta_bp { let at = r.below(bps.len() as u64 + 1) as usize; bps.insert(at, pk(r, BP_META)); }
     let mut env: Vec<(String, String)> = vec![];
@@ -96,6 +110,7 @@ fn assemble(fixture: Vec<(String, Vec<u8>)>, bcfgs: Vec<BCfg>, ccfgs: Vec<CCfg>,
             Act::Start(_, cas) => { shapes.push("start"); for ca in cas { if let CAct::Exec(c) = ca { out.push(c); shapes.push("exec"); } } }
             Act::Sbom => shapes.push("sbom"),
             Act::Rebuild(_, inner) => { shapes.push("rebuild"); walk(inner, out, shapes); }
+            Act::RebuildCtx(_, inner) => { shapes.push("rebuild-ctx"); walk(inner, out, shapes); }
             Act::Panic => shapes.push("panic"),
         } }
     }
@@ -106,7 +121,8 @@ fn assemble(fixture: Vec<(String, Vec<u8>)>, bcfgs: Vec<BCfg>, ccfgs: Vec<CCfg>,
     let tags = vec![
         (s("kind"), s(kind)), (s("shape"), if shapes.is_empty() { s("build-only") } else { shapes.join("+") }),
         (s("hostile"), s(match n_hostile { 0 => "0", 1..=2 => "1-2", 3..=5 => "3-5", _ => "6+" })),
-        (s("pre"), s(if bcfgs.iter().any(|b| b.pre.is_some()) { "1" } else { "0" })),
+        (s("pre"), s(if bcfgs.iter().any(|b| b.pre.iter().flatten().any(|e| matches!(e, Edit::Append(..) | Edit::Rename(..) | Edit::Remove(..)))) { "non-idempotent" }
+            else if bcfgs.iter().any(|b| b.pre.is_some()) { "idempotent" } else { "none" })),
         (s("app"), s(if bcfgs.iter().any(|b| matches!(b.app, AppDir::Abs(_))) { "abs" } else { "rel" })),
         (s("n_bp"), bcfgs.iter().map(|b| b.bps.len()).max().unwrap_or(0).to_string()),
         (s("n_env"), ccfgs.iter().map(|c| c.env.len()).chain(bcfgs.iter().map(|b| b.env.len())).max().unwrap_or(0).to_string()),
@@ -148,6 +164,28 @@ fn generate(tier: &str, seed: u64, emit: &mut dyn FnMut(Case)) {
         variants.push((vec![plain_bcfg()], vec![plain_ccfg()], Tree { cfg: 0, acts: vec![Act::Start(0, vec![CAct::Exec(h.clone())])] }));
         for (b, c, t) in variants { push(assemble(fixture0.clone(), b, c, t, "exhaustive")); }
     }
+    // bounded-exhaustive part 2: every kind of preprocessor edit (and a combination) x {relative, absolute app dir} x
+    // {rebuild with the caller's own fresh config, with `context.config.clone()`, with that plus env set after the clone,
+    //  twice in a row from the context's config} — pack must see fixture + edits exactly once, every time
+    let edit_sets: Vec<Vec<Edit>> = vec![
+        vec![Edit::Write(s("new.txt"), b"edited".to_vec())], vec![Edit::Delete(s("app.txt"))],
+        vec![Edit::Append(s("Procfile"), b"worker: run\n".to_vec())], vec![Edit::Append(s("log.txt"), b"x".to_vec())],
+        vec![Edit::Rename(s("app.txt"), s("sub/moved"))], vec![Edit::Remove(s("app.txt"))],
+        vec![Edit::Write(s("tmp.part"), b"data".to_vec()), Edit::Rename(s("tmp.part"), s("final.txt"))],
+        vec![Edit::Append(s("Procfile"), b"x".to_vec()), Edit::Rename(s("Procfile"), s("Procfile.bak")), Edit::Remove(s("app.txt"))],
+        vec![],
+    ];
+    for edits in &edit_sets { for app in [AppDir::Rel(s("fixtures/app")), AppDir::Abs(s("/app"))] {
+        let first = BCfg { pre: Some(edits.clone()), app: app.clone(), env: vec![(s("K"), s("v"))], ..plain_bcfg() };
+        let overlay = BCfg { env: vec![(s("K"), s("--env")), (s("NEW"), s("a=b"))], ..plain_bcfg() };
+        let none = BCfg { env: vec![], ..plain_bcfg() };
+        let shell = vec![Act::Shell(s("true"))];
+        push(assemble(fixture0.clone(), vec![first.clone()], vec![], Tree { cfg: 0, acts: vec![Act::Rebuild(0, shell.clone())] }, "exhaustive-rebuild"));
+        push(assemble(fixture0.clone(), vec![first.clone(), none.clone()], vec![], Tree { cfg: 0, acts: vec![Act::RebuildCtx(1, shell.clone())] }, "exhaustive-rebuild"));
+        push(assemble(fixture0.clone(), vec![first.clone(), overlay.clone()], vec![], Tree { cfg: 0, acts: vec![Act::RebuildCtx(1, vec![])] }, "exhaustive-rebuild"));
+        push(assemble(fixture0.clone(), vec![first.clone(), overlay.clone(), none.clone()], vec![], Tree { cfg: 0, acts: vec![Act::RebuildCtx(2, vec![Act::RebuildCtx(1, vec![])])] }, "exhaustive-rebuild"));
+        push(assemble(fixture0.clone(), vec![none.clone(), first.clone()], vec![], Tree { cfg: 0, acts: vec![Act::Rebuild(1, vec![Act::RebuildCtx(0, vec![])])] }, "exhaustive-rebuild"));
+    } }
     let n = match tier { "thorough" => 20000, _ => 1600 };
     let search = std::env::var("VERIF_SEARCH").is_ok();
     for i in 0..n {
@@ -173,9 +211,24 @@ fn generate(tier: &str, seed: u64, emit: &mut dyn FnMut(Case)) {
                 3 => acts.push(Act::Shell(any_string(&mut r))),
                 4 => acts.push(Act::Sbom),
                 _ if a + 1 == n_acts => {
-                    bcfgs.push(gen_bcfg(&mut r, false, &fixture));
                     let inner = if r.chance(1, 2) { vec![Act::Shell(any_string(&mut r))] } else { vec![] };
-                    acts.push(Act::Rebuild(1, inner));
+                    if r.chance(1, 2) {
+                        bcfgs.push(gen_bcfg(&mut r, false, &fixture));
+                        acts.push(Act::Rebuild(1, inner));
+                    } else {
+                        // `context.config.clone()`, then env pairs (sometimes overriding an inherited key) and the expected result
+                        let mut ov = plain_bcfg();
+                        ov.env = vec![];
+                        for _ in 0..r.below(3) {
+                            let k = if !bcfgs[0].env.is_empty() && r.chance(1, 3) { bcfgs[0].env[0].0.clone() } else { pk(&mut r, KEYS) };
+                            ov.env.push((k, any_string(&mut r)));
+                        }
+                        if r.chance(1, 8) { ov.expect_success = false; ov.pack_nonzero = true; }
+                        bcfgs.push(ov);
+                        // sometimes a third build, again from the (second) context's config
+                        let inner = if r.chance(1, 4) { let mut i2 = inner; i2.push(Act::RebuildCtx(1, vec![])); i2 } else { inner };
+                        acts.push(Act::RebuildCtx(1, inner));
+                    }
                 }
                 _ => acts.push(Act::Shell(any_string(&mut r))),
             }
